@@ -5,7 +5,7 @@ Decided: the structural conditions in apollo-smith's ResponseBuilder that the sh
 import re
 
 from ..core import Undecided
-from ..flow import _strip, branch_on_call, facts_at
+from ..flow import _strip, branch_on_call, derives, edge_facts, facts_at
 from ..tables import enum_paths, return_value_on_path
 
 CRATES = ["apollo_smith"]
@@ -21,9 +21,10 @@ type chosen once per selection set is the one given to collect_fields and the on
 __typename.  C33.NULL: a generated null is written only under `!ty.is_non_null()`.
 C33.CONCRETE: the two passes over schema.types that count and pick an interface's implementers
 apply the same filter (sibling agreement), and union members / enum values are picked by index
-from the type's own collection.  C33.NEST: a list value is built by a generator whose element is
-chosen from the list's *item* type; choosing it from inner_named_type() after a bare is_list()
-test erases the nesting depth ([[Int!]] comes out as a flat list) - reported.
+from the type's own collection.  C33.NEST: abstract evaluation of generate_field_value for list depths d = 0..3 of the field's
+declared type: switches on is_list()/is_named()/Type variants of an expression of known depth
+follow only the agreeing edge, item_type() and a List payload are one level less, a generator call
+whose result is pushed into a Vec adds one array level; the produced depths must be exactly {d}.
 """
 
 RB = r"apollo_smith::response::ResponseBuilder::<'a, 'doc, 'schema, R>::"
@@ -265,24 +266,233 @@ def rule_concrete(prog, rep):
         rep.finding("C33.CONCRETE", lf.name, "enum", "an enum leaf is not picked among the enum's own defined values", lf.loc())
 
 
+_LISTV = ("List", "NonNullList")
+_NAMEDV = ("Named", "NonNullNamed")
+
+
+def _var_depth(f, name, env):
+    """a pattern binding: every definition is `ref (<type>.as:List|NonNullList).0`"""
+    ds = set()
+    for i, (_, nm) in enumerate(f.d["locals"]):
+        if nm != name:
+            continue
+        for b in f.live_blocks():
+            for st in f.stmts(b):
+                if st[0] == "=" and st[1][0] == i and not st[1][1]:
+                    ds.add(_type_depth(f, f.sym_rv(st[2]) if hasattr(f, "sym_rv") else _rv_sym(f, st[2]), env))
+    return ds.pop() if len(ds) == 1 else None
+
+
+def _rv_sym(f, rv):
+    if rv[0] in ("ref", "use"):
+        pl = rv[2] if rv[0] == "ref" else (rv[1][1] if rv[1][0] in ("c", "m") else None)
+        if pl is None:
+            return "?"
+        base, proj = pl
+        t = "arg%d" % base if 1 <= base <= f.d["argc"] else ("var:%s" % f.d["locals"][base][1] if f.d["locals"][base][1] else "?")
+        for q in proj:
+            if q == "*":
+                t = "*" + t
+            elif isinstance(q, list) and q[0] == "d":
+                t = "(%s).as:%s" % (t, q[2])
+            elif isinstance(q, list) and q[0] == "f":
+                t = "%s.%s" % (t, q[2])
+            else:
+                return "?"
+        return t
+    return "?"
+
+
+def _type_depth(f, sym, env):
+    """abstract list depth of a `&Type` expression: parameters from env, the field's declared
+    type is env['root'], item_type() and the payload of a List variant are one level less"""
+    x = sym.strip()
+    while True:
+        y = x
+        x = x.lstrip("&*").strip()
+        if x.startswith("(") and x.endswith(")") and _balanced(x[1:-1]):
+            x = x[1:-1].strip()
+        m = re.match(r"^<Box<[^()]*> as (?:Deref|AsRef<[^()]*>)>::(?:deref|as_ref)\((.*)\)$", x)
+        if m and _balanced(m.group(1)):
+            x = m.group(1)
+        m = re.match(r"^as<\*const [^()]*Type>\((.*)\.0\.pointer\)$", x)
+        if m and _balanced(m.group(1)):
+            x = m.group(1)
+        if x == y:
+            break
+    m = re.match(r"^var:(\w+)$", x)
+    if m:
+        return _var_depth(f, m.group(1), env)
+    m = re.match(r"^arg(\d+)$", x)
+    if m:
+        return env.get(int(m.group(1)))
+    m = re.match(r"^(?:\w+::)*item_type\((.*)\)$", x)
+    if m and _balanced(m.group(1)):
+        d = _type_depth(f, m.group(1), env)
+        return None if d is None else max(d - 1, 0)
+    m = re.match(r"^(.*)\.as:(\w+)\.0$", x)
+    if m and m.group(2) in _LISTV:
+        d = _type_depth(f, m.group(1), env)
+        return None if d is None else max(d - 1, 0)
+    if re.match(r"^(?:\w+::)*Field::ty\(", x) and _balanced(x[x.index("(") + 1:-1]) and x.endswith(")"):
+        return env.get("root")
+    return None
+
+
+def _balanced(t):
+    n = 0
+    for ch in t:
+        if ch == "(":
+            n += 1
+        elif ch == ")":
+            n -= 1
+            if n < 0:
+                return False
+    return n == 0
+
+
+def _consistent(f, facts, env):
+    for x in facts:
+        if x[0] == "callbool" and (x[1].endswith("Type>::is_list") or x[1].endswith("Type>::is_named")):
+            d = _type_depth(f, f.sym(x[4].args[0]), env)
+            if d is None:
+                continue
+            want = (d > 0) if x[1].endswith("is_list") else (d == 0)
+            if x[3] is not want:
+                return False
+        elif x[0] == "variant" and x[2] in _LISTV + _NAMEDV:
+            d = _type_depth(f, x[1], env)
+            if d is None:
+                continue
+            if ((x[2] in _LISTV) != (d > 0)) is (x[3] is not False):
+                return False
+    return True
+
+
+_REACH = {}
+
+
+def _feasible(f, b, env):
+    """is block b reachable from the entry along switch edges whose facts agree with the abstract
+    list depths (a specialising walk: or-patterns and merged arms need no dominating edge)"""
+    key = (f.uid, tuple(sorted((str(k), v) for k, v in env.items())))
+    if key not in _REACH:
+        succs = f.succs()
+        seen, work = {0}, [0]
+        while work:
+            cur = work.pop()
+            sw = f.term(cur)[0] == "switch"
+            for n in dict.fromkeys(succs[cur]):
+                if n in seen:
+                    continue
+                if sw and not _consistent(f, edge_facts(f, cur, n), env):
+                    continue
+                seen.add(n)
+                work.append(n)
+        _REACH[key] = seen
+    return b in _REACH[key]
+
+
 def rule_nest(prog, rep):
-    rep.floor("C33.NEST", 2)
-    f = F(prog, "generate_field_value")
-    arrs = [c for c in f.live_calls() if re.search(r"::(repeated_leaf_field|repeated_selection_set)$", c.name)]
-    if len(arrs) != 2:
-        raise Undecided("generate_field_value: expected two list-building calls (found %d)" % len(arrs))
-    for c in arrs:
-        s = f.sym(c.args[1])
-        fs = facts_at(f, c.block)
-        bare = any(x[0] == "callbool" and x[1].endswith("Type>::is_list") and x[3] is True for x in fs)
-        erased = "inner_named_type(" in s or "selection_set.ty" in s
-        item = "item_type(" in s
-        nm = c.name.split("::")[-1]
-        if bare and erased and not item:
-            rep.finding("C33.NEST", f.name, "flat:" + nm,
-                        "under a bare `ty.is_list()` test %s is given `%s`: the element generator is chosen from the innermost named type, so a field of type [[Int!]] is generated as a flat list of Int (one level of nesting per list level is lost)" % (nm, s[:100]), c.loc())
-        else:
-            rep.instance("C33.NEST", "%s: list elements are generated from the list's item type" % nm)
+    """abstract evaluation of the generator over list depths 0..3: a field whose declared type has
+    d list levels is generated with exactly d array levels"""
+    rep.floor("C33.NEST", 4)
+    entry = F(prog, "generate_field_value")
+    impl_prefix = entry.name[:entry.name.rindex("::") + 2]
+
+    def gen_fn(c):
+        if not c.name.startswith(impl_prefix):
+            return None
+        g = prog.fns.get(c.uid) if getattr(c, "uid", None) is not None else None
+        if g is None:
+            try:
+                g = prog.fn("^" + re.escape(c.name) + "$")
+            except Exception:
+                return None
+        return g if "Result<serde_json_bytes::Value" in (g.d.get("sig_out") or "") else None
+
+    def type_params(g):
+        return [i + 1 for i, t in enumerate(g.d.get("sig_in") or []) if re.match(r"^&(?:'\w+ )?apollo_compiler::ast::Type$", t)]
+
+    memo, active, trail = {}, set(), []
+
+    def ev(g, env):
+        key = (g.uid, tuple(sorted((str(k), v) for k, v in env.items())))
+        if key in memo:
+            return memo[key]
+        if key in active:
+            return {"unbounded recursion"}
+        active.add(key)
+        calls = []
+        for c in g.live_calls():
+            h = gen_fn(c)
+            if h is None or not _feasible(g, c.block, env):
+                continue
+            calls.append((c, h))
+        pushed = set()
+        for p in g.live_calls():
+            if re.search(r"Vec::<T(, A)?>::push$", p.name) and _feasible(g, p.block, env):
+                _, via = derives(g, p.args[1])
+                for v in via:
+                    for c, h in calls:
+                        if v is c or (v.block == c.block):
+                            pushed.add(c.block)
+        out = set()
+        for c, h in calls:
+            tps = type_params(h)
+            if not tps:
+                d = 0
+            else:
+                henv = {}
+                for i in tps:
+                    henv[i] = _type_depth(g, g.sym(c.args[i - 1]), env)
+                    if henv[i] is None:
+                        raise Undecided("%s: the list depth of `%s` given to %s is not derivable" % (g.name.split("::")[-1], g.sym(c.args[i - 1])[:80], h.name.split("::")[-1]))
+                r = ev(h, henv)
+                for d in r:
+                    if not isinstance(d, int):
+                        out.add(d)
+                        trail.append((g.name.split("::")[-1], h.name.split("::")[-1], c.loc()))
+                r = {d for d in r if isinstance(d, int)}
+                if len(r) > 1:
+                    out |= {1 + d if c.block in pushed else d for d in r}
+                    continue
+                if not r:
+                    continue
+                d = next(iter(r))
+            out.add(1 + d if c.block in pushed else d)
+        if not calls:
+            out.add(0)
+        active.discard(key)
+        memo[key] = out
+        return out
+
+    bad = None
+    for d in range(4):
+        got = ev(entry, {"root": d})
+        if got != {d}:
+            bad = (d, got)
+            break
+        rep.instance("C33.NEST", "a field type with %d list level(s) is generated with %d array level(s) on every generator path" % (d, d))
+    rep.obligation(bad is None)
+    if bad:
+        d, got = bad
+        # name the direct call of the entry that disagrees
+        which = "?"
+        for c in entry.live_calls():
+            h = gen_fn(c)
+            if h is None or not _feasible(entry, c.block, {"root": d}):
+                continue
+            tps = type_params(h)
+            try:
+                r = {0} if not tps else ev(h, {i: _type_depth(entry, entry.sym(c.args[i - 1]), {"root": d}) for i in tps})
+            except Undecided:
+                r = {"?"}
+            if r != {d}:
+                which = h.name.split("::")[-1]
+                break
+        rep.finding("C33.NEST", entry.name, "flat:" + which,
+                    "a field whose declared type has %d list level(s) is generated with %s array level(s) (through %s): the generated value does not nest lists as the field type does" % (d, sorted(map(str, got)), which), entry.loc())
 
 
 def run(prog, rep):
